@@ -225,7 +225,7 @@ impl GitSyncServer {
         let git = Git::new(git_path);
         let meta = Self::init_repo(&git, &local_path, &branch, remote.as_deref(), local_only)?;
         let cryptor = Cryptor::new(&meta.salt, &encryption_secret.into())?;
-        let server = GitSyncServer {
+        let mut server = GitSyncServer {
             git,
             meta,
             local_path,
@@ -235,7 +235,31 @@ impl GitSyncServer {
             cryptor,
             version_retention: VERSION_RETENTION,
         };
+        server.finish_interrupted_push()?;
         Ok(server)
+    }
+
+    /// A version that was committed but not pushed (the process stopped in between) must not
+    /// stay visible to this clone only: push it now, or, if the remote has moved on, roll it
+    /// back as a rejected push would have been.
+    fn finish_interrupted_push(&mut self) -> Result<()> {
+        let Some(remote) = self.remote.as_deref() else {
+            return Ok(());
+        };
+        if self.local_only {
+            return Ok(());
+        }
+        // A remote without the branch is populated by the first add_version.
+        if !self.git.cmd_ok(
+            &self.local_path,
+            &["ls-remote", "--exit-code", "--heads", remote, &self.branch],
+        )? {
+            return Ok(());
+        }
+        if !self.push()? {
+            self.discard_failed_write();
+        }
+        Ok(())
     }
 
     /// Initialise or open the git repository and return the current [`Meta`].
